@@ -114,7 +114,7 @@ func c08(c *Ctx) {
 			if okSrc {
 				break
 			}
-			if len(p.Ret.Results) == 2 && an.IsNilConst(an.RetVal(p.Ret, 1)) {
+			if len(p.Ret.Results) == 2 && an.MayBeNilConst(an.RetVal(p.Ret, 1)) {
 				o := tr.OriginString(an.RetVal(p.Ret, 0))
 				okSrc = strings.Contains(o, "ioutil.CancelableReader).Read#0")
 				r.Check(okSrc, "R08.F", "tcpConn.Read:source", c.pos(p.Ret.Pos()), "the byte count returned on success comes from "+simplifyOrigin(o))
@@ -792,6 +792,9 @@ func c08Framing(c *Ctx, tr *an.Tracer) {
 			if ok && cd.Kind == "eq" {
 				if k, ok := an.ConstInt(cd.Y); ok && k == 0x7f && strings.HasSuffix(tr.OriginString(cd.X), "[0]") {
 					markerOK = true
+				}
+				if k, ok := an.ConstInt(cd.X); ok && k == 0x7f && strings.HasSuffix(tr.OriginString(cd.Y), "[0]") {
+					markerOK = true // operands the other way round
 				}
 			}
 		}
